@@ -124,6 +124,9 @@ def body_producers(case, ctx):
                 return
             ctx.label("self-pair:%s-%s" % (op[2], op[3]))
             rl.expect_rl(lib(lambda: uf(der[op[2]](x, a), der[op[3]](x, a))), e.value, "rl-rl-ufunc-same-parent", strict=True, uf=op[1], pair=op[2:])
+        elif op[0] == "reencode":
+            # the encoder is handed an array-like that is itself a (possibly derived, not run-joined) run-length array
+            rl.expect_rl(lib(lambda: RunLengthArray.from_array(x)), a, "encode-of-encoded", strict=True)
         elif op[0] == "concat":
             parts = [a] + [rl.dense(case["dt"], r) for r in op[1]]
             xs = [x] + [rl.encode(p) for p in parts[1:]]
@@ -152,8 +155,10 @@ def producer_case(draw, tier):
     dt = draw(st.sampled_from(rl.RL_DT))
     runs = draw(rl.runs(dt, tier))
     n = sum(l for _, l in runs)
-    kind = draw(st.sampled_from(["slice", "slice", "unary", "scalar", "binary", "binary", "binary-self", "concat", "mask"]))
-    if kind == "binary-self":
+    kind = draw(st.sampled_from(["slice", "slice", "unary", "scalar", "binary", "binary", "binary-self", "concat", "mask", "reencode"]))
+    if kind == "reencode":
+        op = ["reencode"]
+    elif kind == "binary-self":
         D = st.sampled_from(["id", "id", "gt", "lt", "half", "eq0", "neg"])
         op = ["binary-self", draw(st.sampled_from(BINARY_UF)), draw(D), draw(D)]
     elif kind == "slice":
